@@ -16,6 +16,7 @@ pub mod c08;
 pub mod c09;
 pub mod c10;
 pub mod c11;
+pub mod c12;
 pub mod cmdtable;
 pub mod c13;
 pub mod c14;
@@ -43,6 +44,7 @@ pub fn parent_main(prop: &str, tier: &str) -> i32 {
         "C09" => c09::parent(tier),
         "C10" => c10::parent(tier),
         "C11" => c11::parent(tier),
+        "C12" => c12::parent(tier),
         "C08" => c08::parent(tier),
         "C18" => c18::parent(tier),
         "C14" => c14::parent(tier),
@@ -99,6 +101,10 @@ pub fn worker_main(prop: &str, tier: &str, _slot: usize) {
         }
         "C08" => {
             let mut h = c08::handle_factory();
+            pool::worker_loop(|t, io| h(tier, t, io))
+        }
+        "C12" => {
+            let mut h = c12::handle_factory();
             pool::worker_loop(|t, io| h(tier, t, io))
         }
         "C11" => {
